@@ -34,7 +34,10 @@ pub struct AccCase {
 fn acc_strategy(max_m: usize, max_n: u64, work: u64) -> impl Strategy<Value = AccCase> {
     let b = prop_oneof![3 => prop::sample::select(vec![1.001f64, 1.01, 1.1, 1.5, 2.0]), 2 => (-4.0f64..0.0).prop_map(|e| 1.0 + 10f64.powf(e))];
     let n = prop_oneof![1 => Just(1u64), 2 => 1u64..30, 4 => (0.0f64..(max_n as f64).ln()).prop_map(|l| l.exp() as u64)];
-    (any::<bool>(), prop::sample::select(vec![16usize, 17, 24, 32, 64, 65, 100, 128, 256, 512, 1000, 1024, 4096]).prop_filter("m", move |m| *m <= max_m), b, n, prop_oneof![3 => Just(1u8), 1 => 2u8..4], any::<u64>()).prop_map(move |(wide, m, b, n, dup, seed)| {
+    (any::<bool>(), prop_oneof![12 => prop::sample::select(vec![16usize, 17, 24, 32, 64, 65, 100, 128, 256, 512, 1000, 1024, 4096]).prop_filter("m", move |m| *m <= max_m), 1 => prop::sample::select(vec![66_000usize, 70_000])], b, n, prop_oneof![3 => Just(1u8), 1 => 2u8..4], any::<u64>()).prop_map(move |(wide, m, b, n, dup, seed)| {
+        // sketches of more than 2^16 registers (one case in thirteen): tiny sets (an insertion costs O(m)), a base of at least 1.01 so that
+        // the documented q fits 16-bit registers, 16-bit registers in three cases out of four
+        let (n, b, wide) = if m > 60_000 { (1 + n % 8, if b < 1.01 { [1.01, 1.1, 1.5, 2.0][(seed >> 40) as usize % 4] } else { b }, (seed >> 44) % 4 == 0) } else { (n, b, wide) };
         let n = n.max(1);
         let ss = SsParams::documented(b, m, (n as f64).max(10.0), 1.0e-6);
         let wide = wide || ss.q + 1 > 65534;
@@ -145,7 +148,8 @@ pub fn eval_acc(c: &AccCase) -> Eval {
         .class_if(c.n < c.m as u64, "n<m")
         .class_if(c.n >= 8 * c.m as u64, "n>=8m")
         .class_if(c.dup > 1, "with-repeated-items")
-        .class_if(c.n == 1, "n=1"))
+        .class_if(c.n == 1, "n=1")
+        .class_if(c.m > 65_535, "m>65535"))
 }
 
 // ---------------------------------------------------------------------------------------------
